@@ -32,6 +32,12 @@ strings.  Allowed outcomes per entry point, from the documentation:
                no thread dies, nothing stays blocked
   t3emu        commands into Type3TagEmulation.process_command and through
                connect(card=...)            -> bytes or None, connect returns
+  t3lists /    grammar-built Read/Write Without Encryption commands (service
+  t3gram       list x block list x element format x position and kind of the
+               first element the tag can not serve x block data size x cut),
+               bounded exhaustive and generated, directly and through whole
+               connect(card=...) sessions   -> response frame or None,
+               connect returns True, an unservable command is refused
 
 Anything else (IndexError, ValueError, struct.error, TypeError,
 RecursionError, an uncaught exception in any thread, a deadlock report, a
@@ -1678,6 +1684,430 @@ def run_card(case, ctx):
         vsched.activate(None)
 
 
+# ------------------------------------------------- legs: t3lists / t3gram
+# Grammar of the commands an emulated Type 3 Tag receives.  A command is a
+# *spec* (JSON) that t3_build() renders to bytes:
+#
+#   {"code": 6|8, "idm": "ok"|"wrong"|"zero", "svcs": [service codes],
+#    "elems": [[fmt(2|3), access mode, service list index, block number]..],
+#    "data": bytes that follow the block list (block data of a write),
+#    "nsvc": None|n, "nblk": None|n   (count bytes that disagree with lists),
+#    "cut": None|n (frame cut to n bytes, length byte follows the cut),
+#    "lend": 0|d  (length byte off by d)}
+#   {"code": other, "idm": .., "raw": bytes, "cut": .., "lend": ..}
+#
+# The emulated tag (t3_add_services) offers three services over callbacks
+# that serve a bounded number of blocks:
+#   0009h read/write, *nblocks* blocks      000Bh the same blocks, read only
+#   1009h read/write, nblocks + 4 blocks
+T3_SVC = (0x0009, 0x000B, 0x1009)
+T3_SVC_UNKNOWN = (0x4321, 0xFFFF, 0x0109)
+T3_SYS = b"\x12\xFC"
+T3_SENSF = b"\x01" + IDM + bytes.fromhex("0177FFFFFFFFFFFF") + T3_SYS
+
+
+def t3_blocks(code, nblocks):
+    """number of blocks the callbacks of service *code* serve"""
+    if code in (0x0009, 0x000B):
+        return nblocks
+    if code == 0x1009:
+        return nblocks + 4
+    return 0
+
+
+def t3_add_services(tag, nblocks):
+    mem = {0x0009: bytearray(16 * nblocks),
+           0x1009: bytearray(16 * (nblocks + 4))}
+    mem[0x000B] = mem[0x0009]
+
+    def reader(code):
+        def rd(n, rb, re):
+            if n < t3_blocks(code, nblocks):
+                return mem[code][n * 16:n * 16 + 16]
+        return rd
+
+    def writer(code):
+        def wr(n, d, wb, we):
+            if n < t3_blocks(code, nblocks) and len(d) == 16:
+                mem[code][n * 16:n * 16 + 16] = d
+                return True
+            return False
+        return wr
+    tag.add_service(0x0009, reader(0x0009), writer(0x0009))
+    tag.add_service(0x000B, reader(0x000B), None)
+    tag.add_service(0x1009, reader(0x1009), writer(0x1009))
+
+
+def t3_idm(spec):
+    return {"ok": IDM, "zero": bytes(8)}.get(spec.get("idm", "ok"),
+                                             IDM[:7] + b"\x07")
+
+
+def t3_build(spec):
+    """render a command spec to the bytes the reader sends"""
+    code = spec["code"]
+    if code in (0x06, 0x08) and "svcs" in spec:
+        svcs, elems = spec["svcs"], spec["elems"]
+        body = bytearray()
+        body.append(len(svcs) if spec.get("nsvc") is None else spec["nsvc"])
+        for sc in svcs:
+            body += struct.pack("<H", sc)
+        body.append(len(elems) if spec.get("nblk") is None else spec["nblk"])
+        for fmt, am, idx, blk in elems:
+            if fmt == 2:
+                body += bytes([0x80 | (am & 7) << 4 | idx & 15, blk & 0xFF])
+            else:
+                body += bytes([(am & 7) << 4 | idx & 15]) \
+                    + struct.pack("<H", blk & 0xFFFF)
+        body += bytes((7 * k + 1) & 0xFF for k in range(spec.get("data", 0)))
+        frame = bytes([code]) + t3_idm(spec) + bytes(body)
+    elif code == 0x00:
+        frame = bytes([code]) + bytes(spec.get("raw", b""))
+    else:
+        frame = bytes([code]) + t3_idm(spec) + bytes(spec.get("raw", b""))
+    frame = frame[:254]
+    if spec.get("cut") is not None:
+        frame = frame[:spec["cut"]]
+    return bytes([(len(frame) + 1 + spec.get("lend", 0)) & 0xFF]) + frame
+
+
+def t3_room(spec):
+    """bytes of block data that fit into the frame behind the block list"""
+    used = 12 + 2 * len(spec["svcs"]) + sum(e[0] for e in spec["elems"])
+    return max(0, 255 - used)
+
+
+def t3_first_bad(spec, nblocks):
+    """(position, kind) of the first block list element the tag can not
+    serve, None when all can be served, "n/a" when the command is not a
+    complete Read/Write command to this tag with registered services"""
+    if spec["code"] not in (0x06, 0x08) or "svcs" not in spec:
+        return "n/a"
+    if (spec.get("idm", "ok") != "ok" or spec.get("cut") is not None
+            or spec.get("lend", 0) or spec.get("nsvc") is not None
+            or spec.get("nblk") is not None):
+        return "n/a"
+    if any(sc not in T3_SVC for sc in spec["svcs"]):
+        return "n/a"
+    if len(t3_build(spec)) != 12 + 2 * len(spec["svcs"]) + sum(
+            e[0] for e in spec["elems"]) + spec.get("data", 0):
+        return "n/a"    # did not fit into one frame
+    for pos, (fmt, am, idx, blk) in enumerate(spec["elems"]):
+        if idx >= len(spec["svcs"]):
+            return [pos, "idx"]
+        sc = spec["svcs"][idx]
+        if blk >= t3_blocks(sc, nblocks):
+            return [pos, "blk"]
+        if spec["code"] == 0x08 and sc == 0x000B:
+            return [pos, "ro"]
+    return None
+
+
+def t3_check(cmd, rsp, spec, nblocks, ctx, where):
+    """one command, one answer: a response frame or None (ignored)"""
+    if rsp is None:
+        ctx.label(where + ":ignored")
+        return False
+    if not isinstance(rsp, (bytes, bytearray)):
+        raise Violation("process_command-result-type", repr(rsp))
+    rsp = bytes(rsp)
+    detail = "%s: %s -> %s" % (where, cmd.hex(), rsp.hex())
+    if len(rsp) < 2 or len(rsp) != rsp[0]:
+        raise Violation("response-length-byte-wrong", detail)
+    if len(cmd) < 2 or rsp[1] != cmd[1] + 1:
+        raise Violation("response-code-does-not-answer-command", detail)
+    if rsp[1] != 0x01 and rsp[2:10] != IDM:
+        raise Violation("response-without-idm", detail)
+    bad = t3_first_bad(spec, nblocks)
+    if rsp[1] in (0x07, 0x09):
+        if len(rsp) < 12:
+            raise Violation("response-without-status-flags", detail)
+        ctx.label("%s:%02x/status=%02x%02x" % (where, rsp[1], rsp[10]
+                                                 and 1, rsp[11]))
+        if isinstance(bad, list) and rsp[10] == 0:
+            # "malformed input is answered with a protocol error, an
+            # ignored command or an orderly link termination"
+            raise Violation("unservable-command-answered-with-success",
+                            "first bad element %r; %s" % (bad, detail))
+    if isinstance(bad, list):
+        ctx.label("first-bad=%s@%s" % (bad[1], "0-7" if bad[0] < 8 else "8+"))
+    return rsp[1] in (0x07, 0x09) and len(spec.get("elems", ())) >= 2
+
+
+class T3Reader(ReaderDev):
+    """scripted reader that keeps every answer of the emulation (None =
+    the command was ignored) next to the command it answers"""
+
+    def __init__(self, first, frames):
+        ReaderDev.__init__(self, first, frames)
+        self.answers = []
+
+    def send_rsp_recv_cmd(self, target, data, timeout):
+        self._call("send_rsp_recv_cmd")
+        self.answers.append(None if data is None else bytes(data))
+        return self._next()
+
+
+def t3_session_direct(cmds, specs, nblocks, ctx):
+    t = nfc.clf.LocalTarget("212F")
+    t.sensf_res = bytearray(T3_SENSF)
+    t.tt3_cmd = bytearray(b"\x04" + IDM)
+    emu = nfc.tag.emulate(None, t)
+    t3_add_services(emu, nblocks)
+    nt = False
+    for c, spec in zip(cmds, specs):
+        try:
+            r = emu.process_command(bytearray(c))
+        except Exception as e:
+            raise unexpected(e, "process_command-raises",
+                             detail="cmd=%s" % c.hex())
+        nt |= t3_check(c, r, spec, nblocks, ctx, "direct")
+    return nt
+
+
+def t3_session_card(cmds, specs, nblocks, ctx):
+    s = vsched.Sched([], seed=1)
+    vsched.activate(s)
+    try:
+        if len(cmds[0]) < 2:
+            # nothing to activate the emulation with: a Request Response
+            # command comes first
+            cmds = [b"\x0a\x04" + IDM] + cmds
+            specs = [{"code": 0x04, "raw": b""}] + specs
+        else:
+            # the driver hands the first command over without its length
+            # byte, the emulation restores it
+            cmds = [bytes([len(cmds[0])]) + cmds[0][1:]] + cmds[1:]
+        dev = T3Reader(cmds[0], cmds[1:])
+        clf = nfc.clf.ContactlessFrontend()
+        clf.device = dev
+        n = {"k": 0}
+
+        def terminate():
+            n["k"] += 1
+            return n["k"] > 60
+
+        def startup(target):
+            target.brty = "212F"
+            target.sensf_res = bytearray(T3_SENSF)
+            return target
+
+        def on_connect(tag):
+            t3_add_services(tag, nblocks)
+            return True
+        try:
+            ret = clf.connect(card={"on-startup": startup,
+                                    "on-connect": on_connect},
+                              terminate=terminate)
+        except vsched.StepBudget:
+            raise Violation("unbounded-exchanges", "card loop")
+        except Exception as e:
+            raise unexpected(e, "connect-raises")
+        if ret is not True:
+            raise Violation("connect-result", "the reader left the field "
+                            "after %d commands, connect() returned %r"
+                            % (len(cmds), ret))
+        if dev.frames or len(dev.answers) != len(cmds):
+            raise Violation("command-not-handled", "%d commands, %d answered "
+                            "or ignored" % (len(cmds), len(dev.answers)))
+        nt = False
+        for c, spec, r in zip(cmds, specs, dev.answers):
+            nt |= t3_check(c, r, spec, nblocks, ctx, "card")
+        if s.failures():
+            raise Violation("thread-died", repr(s.failures())[:300])
+        return nt
+    finally:
+        s.shutdown()
+        vsched.activate(None)
+
+
+def run_t3gram(case, ctx):
+    specs = [dict(sp) for sp in case["cmds"]]
+    cmds = [t3_build(sp) for sp in specs]
+    ctx.set_class("t3cmd/" + case["via"])
+    if case["via"] == "card":
+        nt = t3_session_card(cmds, specs, case["nblocks"], ctx)
+    else:
+        nt = t3_session_direct(cmds, specs, case["nblocks"], ctx)
+    if nt:
+        ctx.nontrivial()
+    ctx.note({"cmds": [c.hex()[:80] for c in cmds[:3]],
+              "first_bad": [t3_first_bad(sp, case["nblocks"])
+                            for sp in specs[:6]]})
+
+
+def t3_list_spec(code, svcs, fmt, n, p, kind, nblocks, data=None):
+    """Read/Write command with *n* block list elements that can all be
+    served except the one at position *p* (None: all can be served): kind
+    "idx" = service list index beyond the service list, "blk" = a block the
+    callbacks do not serve.  fmt 2 / 3 = element size, "mix" alternates."""
+    elems = []
+    for j in range(n):
+        f = fmt if fmt != "mix" else (2, 3)[j % 2]
+        svi = j % len(svcs)
+        if code == 0x08 and svcs[svi] == 0x000B:
+            svi = 0
+        blk = j % t3_blocks(svcs[svi], nblocks)
+        if j == p and kind == "idx":
+            svi = len(svcs) if j % 2 else 15
+        elif j == p:
+            blk = (t3_blocks(svcs[svi], nblocks) + j if f == 2 or j % 3
+                   else 0x100 + j)
+        elems.append([f, 0, svi, blk])
+    spec = {"code": code, "idm": "ok", "svcs": list(svcs), "elems": elems}
+    if code == 0x08:
+        spec["data"] = min(16 * n if data is None else data, t3_room(spec))
+    return spec
+
+
+def enum_t3lists(tier, seed):
+    """bounded exhaustive: command x service list x element format x list
+    length x position of the first unservable element x kind of defect"""
+    nblocks = 6
+    svc_lists = ([0x0009], [0x0009, 0x1009],
+                 [T3_SVC[k % 3] for k in range(16)])
+    for code in (0x06, 0x08):
+        for svcs in svc_lists:
+            for fmt in (2, 3, "mix"):
+                for n in range(1, 18):
+                    kinds = ["blk"] if len(svcs) == 16 else ["idx", "blk"]
+                    for kind in kinds:
+                        specs = [t3_list_spec(code, svcs, fmt, n, p, kind,
+                                              nblocks) for p in range(n)]
+                        specs.append(t3_list_spec(code, svcs, fmt, n, None,
+                                                  None, nblocks))
+                        for sp in specs:
+                            yield {"via": "direct", "nblocks": nblocks,
+                                   "cmds": [sp]}
+                        # one reader session asks with the defect at every
+                        # position, first to last and last to first (the
+                        # first command arrives with the activation)
+                        yield {"via": "card", "nblocks": nblocks,
+                               "cmds": specs}
+                        yield {"via": "card", "nblocks": nblocks,
+                               "cmds": specs[::-1]}
+    # block data of a write: one block short / long, not a multiple of 16
+    for n in range(1, 14):
+        for p, kind in ((None, None), (n - 1, "blk"), (n - 1, "idx")):
+            specs = [t3_list_spec(0x08, [0x0009, 0x1009], "mix", n, p, kind,
+                                  nblocks, data=max(0, 16 * n + d))
+                     for d in (-17, -16, -1, 1, 16)]
+            yield {"via": "direct", "nblocks": nblocks, "cmds": specs}
+            yield {"via": "card", "nblocks": nblocks, "cmds": specs}
+    # every command cut at every byte (the length byte follows the cut), the
+    # IDm of another tag, the length byte off by one
+    for code, n in ((0x06, 15), (0x08, 12)):
+        for p, kind in ((None, None), (9, "idx"), (n - 1, "blk")):
+            full = t3_list_spec(code, [0x0009, 0x1009], "mix", n, p, kind,
+                                nblocks)
+            size = len(t3_build(full)) - 1
+            variants = [dict(full, cut=k) for k in range(size)]
+            variants += [dict(full, idm="wrong"), dict(full, idm="zero"),
+                         dict(full, lend=1), dict(full, lend=-1),
+                         dict(full, nblk=n + 1), dict(full, nblk=n - 1),
+                         dict(full, nsvc=1), dict(full, nsvc=3)]
+            for k in range(0, len(variants), 12):
+                for via in ("direct", "card"):
+                    yield {"via": via, "nblocks": nblocks,
+                           "cmds": variants[k:k + 12] + [full]}
+
+
+# the strategies are built once; everything else is derived from the drawn
+# numbers so that generating a case stays cheap
+T3G = {
+    "code": st.sampled_from([0x06] * 6 + [0x08] * 6 + [0x04, 0x0C, 0x00, 0x02,
+                                                       0xFF]),
+    # at most one framing defect per command, most commands have none
+    "defect": st.sampled_from([None] * 7 + ["cut", "idm", "lend", "nsvc",
+                                            "nblk"]),
+    "cut": st.one_of(st.integers(0, 40), st.integers(0, 254)),
+    "pick": st.integers(0, 0xFFFF),
+    "raw": st.one_of(st.just(b""), st.just(T3_SYS + b"\x01\x00"),
+                     st.just(b"\xFF\xFF\x00\x00"), st.binary(max_size=8)),
+    "nsvc": st.sampled_from([1, 1, 1, 2, 2, 3, 4, 8, 15, 16, 0]),
+    "n": st.one_of(st.integers(1, 15), st.integers(1, 13),
+                   st.integers(0, 20)),
+    "pkind": st.sampled_from(["idx", "blk"]),
+    # one byte of entropy per service list entry, four per element
+    "ent": st.binary(min_size=96, max_size=96),
+    "delta": st.sampled_from([0] * 12 + [-16, -1, 1, 15, 16, 32, -999]),
+    "junk": st.sampled_from([0] * 9 + [1, 16]),
+    "nblocks": st.sampled_from([1, 2, 4, 6, 10, 13, 16, 20]),
+    "via": st.sampled_from(["direct", "card"]),
+    "ncmds": st.integers(1, 5),
+    "odd": st.sampled_from([False] * 11 + [True]),
+}
+
+
+def t3gram_cmd(draw, nblocks):
+    code = draw(T3G["code"])
+    defect = draw(T3G["defect"])
+    pick = draw(T3G["pick"]) if defect else 0
+    spec = {"code": code, "idm": "ok", "cut": None, "lend": 0}
+    if defect == "idm":
+        spec["idm"] = ("wrong", "zero")[pick % 2]
+    elif defect == "cut":
+        spec["cut"] = draw(T3G["cut"])
+    elif defect == "lend":
+        spec["lend"] = (1, -1)[pick % 2]
+    if code not in (0x06, 0x08):
+        spec["raw"] = draw(T3G["raw"])
+        return spec
+    nsvc = draw(T3G["nsvc"])
+    n = draw(T3G["n"])
+    ent = draw(T3G["ent"])
+    regd = [sc for sc in T3_SVC if not (code == 0x08 and sc == 0x000B)]
+    svcs = [regd[e % len(regd)] for e in ent[80:80 + nsvc]]
+    if draw(T3G["odd"]) and nsvc:
+        # one entry of the service list is not registered / is read only
+        svcs[ent[78] % nsvc] = (T3_SVC_UNKNOWN + (0x000B,))[ent[77] % 4]
+    # position of the first element that can not be served, n = none
+    where = draw(T3G["pick"])
+    p = n if where % 3 == 2 else (where // 3) % (n + 1)
+    pkind = draw(T3G["pkind"])
+    raw = [((["ok"] * 5 + ["idx", "blk"])[ent[k] % 7],
+            (2, 2, 3)[ent[k + 1] % 3],
+            ([0] * 6 + [1, 2, 7])[(ent[k + 1] >> 4) % 9],
+            ent[k + 2], ent[k + 3]) for k in range(0, 4 * n, 4)]
+    elems = []
+    for j, (kind, fmt, am, r1, r2) in enumerate(raw):
+        kind = "ok" if j < p else kind if j > p else pkind
+        if nsvc == 0:
+            elems.append([fmt, am, r1 % 16, r2])
+            continue
+        if kind == "idx" and nsvc < 16:
+            elems.append([fmt, am, nsvc + r1 % (16 - nsvc), r2 % nblocks])
+            continue
+        svi = r1 % nsvc
+        have = t3_blocks(svcs[svi], nblocks) or nblocks
+        if kind == "ok":
+            blk = r2 % have
+        elif fmt == 2:
+            blk = have + r2 % (256 - have)
+        else:
+            blk = min(0xFFFF, have + r2 * 257)
+        elems.append([fmt, am, svi, blk])
+    spec.update(svcs=svcs, elems=elems, nsvc=None, nblk=None)
+    if defect == "nsvc":
+        spec["nsvc"] = (0, nsvc + 1, max(0, nsvc - 1), 16, 255)[pick % 5]
+    elif defect == "nblk":
+        spec["nblk"] = (0, n + 1, max(0, n - 1), 15, 16, 255)[pick % 6]
+    if code == 0x08:
+        want = 16 * n + draw(T3G["delta"])
+        spec["data"] = max(0, min(want, t3_room(spec)))
+    else:
+        spec["data"] = draw(T3G["junk"])
+    return spec
+
+
+@st.composite
+def t3gram_case(draw):
+    nblocks = draw(T3G["nblocks"])
+    return {"via": draw(T3G["via"]), "nblocks": nblocks,
+            "cmds": [t3gram_cmd(draw, nblocks)
+                     for _ in range(draw(T3G["ncmds"]))]}
+
+
 LEGS = [
     Leg("pdu", run=run_pdu, gen=c11.gen_bytes, quick=2000, thorough=100000,
         shards_quick=3, shards_thorough=16, nt_floor=0.1,
@@ -1793,4 +2223,45 @@ LEGS = [
     Leg("t3emu-short", bulk=bulk_t3emu_short, exhaustive=True, shards_quick=2,
         shards_thorough=16,
         rule="every command string of length <= 2 (quick) / <= 3 (thorough)."),
+    Leg("t3lists", run=run_t3gram, enum=enum_t3lists, exhaustive=True,
+        shards_quick=4, shards_thorough=16,
+        rule="bounded exhaustive over the block list of Read / Write Without "
+             "Encryption commands to an emulated Type 3 Tag with three "
+             "services (6 / 6 read-only / 10 blocks): service list of 1, 2 or "
+             "16 entries x 2-byte, 3-byte or alternating element format x "
+             "list length 1..17 x position of the one element that can not "
+             "be served (every position, or none) x kind (service list index "
+             "beyond the list, block the callbacks do not have); write block "
+             "data of 16n-17/-16/-1/+1/+16 bytes for n = 1..13; a 15 element "
+             "read and a 12 element write cut at every byte, with a foreign "
+             "IDm, a length byte off by one and count bytes that disagree "
+             "with the lists.  Every command goes into process_command() "
+             "directly and, as one reader session per list length (defect "
+             "first to last position and last to first, the first command "
+             "arriving with the activation), through connect(card=...) until "
+             "the field goes off.  Oracle: nothing but a response frame "
+             "(length byte, response code = command code + 1, IDm, status "
+             "flags) or None comes out, connect() returns True, every command "
+             "of the session was answered or ignored, an unservable command "
+             "is not answered with status flag 1 = 00h.  non-trivial = a "
+             "Read/Write command with at least two block list elements got a "
+             "response frame."),
+    Leg("t3gram", run=run_t3gram, gen=lambda tier: t3gram_case(), quick=1500,
+        thorough=60000, shards_quick=3, shards_thorough=16, nt_floor=0.2,
+        rule="sessions of 1..5 grammar-built commands to an emulated Type 3 "
+             "Tag (services with 1..20 blocks): Read / Write Without "
+             "Encryption with 0..16 service list entries (registered, "
+             "sometimes one unknown or read-only), 0..20 block list elements "
+             "in 2- and 3-byte format with access mode bits, all servable up "
+             "to a drawn position, one unservable there (unknown service list "
+             "index / block the callbacks do not have), independently "
+             "servable or not behind it; block data exact / a block or a byte "
+             "short / long / none; count bytes that disagree with the lists; "
+             "right, foreign and zero IDm; cut after 0..100 bytes; length "
+             "byte off by one; Polling, Request Response, Request System "
+             "Code and unhandled command codes in between.  Sent directly "
+             "into process_command() or by a scripted reader through "
+             "connect(card=...).  Oracle as for t3lists.  non-trivial = a "
+             "Read/Write command with at least two block list elements got a "
+             "response frame."),
 ]
